@@ -182,6 +182,16 @@ def systematic():
         _fam(out, "lt_min", b, b.obj(b.lt(b.min(a, b.max(b.choose(0, 1))), b.max(b.choose(2, 1), b.choose(3, 1)))))
         b = B(q)
         _fam(out, "lt_impossible", b, b.obj(b.lt(b.max(b.choose(2, 2)), b.max(b.choose(0, 2), b.choose(3, 1))), b.choose(0, 1)))
+    # --- orderings whose best option sits exactly on the bound (critical-path pruning) ----
+    for q in ([1], [2]):
+        b = B(q)
+        _fam(out, "lt_tight", b, b.obj(b.lt(b.max(b.choose(0, 2)), b.max(b.choose(1, 1, util=2), b.choose(2, 1, util=3), b.choose(3, 1)))))
+        b = B(q)
+        _fam(out, "lt_tight", b, b.obj(b.lt(b.max(b.choose(0, 2), b.choose(1, 2, util=3), b.choose(2, 2, util=2)), b.max(b.choose(3, 1)))))
+        b = B(q)
+        _fam(out, "lt_tight_w", b, b.obj(b.lt(b.wchoose(0, 0, 2), b.wchoose(0, 3, 1)), b.choose(3, 1, util=5)))
+        b = B(q)
+        _fam(out, "lt_tight_w", b, b.obj(b.lt(b.wchoose(0, 3, 2), b.wchoose(3, 3, 1)), b.choose(0, 1, util=5)))
     # --- Scale -------------------------------------------------------------------
     for q in ([1], [1, 1]):
         b = B(q)
@@ -275,6 +285,9 @@ def systematic():
     _fam(out, "lt_impossible_w", b, b.obj(b.lt(b.wchoose(0, 2, 1), b.max(b.choose(0, 1, util=3))), b.choose(1, 1)))
     b = B([2])
     _fam(out, "lt_impossible_w", b, b.obj(b.lt(b.wchoose(0, 2, 2), b.max(b.choose(0, 1, util=3))), b.choose(2, 1)))
+    # --- critical-path pruning leaves a Max with nothing but an option in the past ----------
+    b = B([1, 1], now=1)
+    _fam(out, "past_lt", b, b.obj(b.lt(b.max(b.choose(0, 2, num=2, util=3), b.choose(3, 2)), b.max(b.choose(3, 2, ps=[2], util=3)))))
     # --- a window that opens before `now` --------------------------------------------------
     b = B([1], now=2)
     _fam(out, "past_windowed", b, b.obj(b.wchoose(0, 3, 1, util=2)))
@@ -298,10 +311,12 @@ def random_tree(rng, k, max_leaves=4, max_depth=3, kinds=("Choose", "WindowedCho
     H = 6
     b = B(q, now=now, H=H)
     budget = [rng.randint(1, max_leaves)]
+    wide = [0]  # WindowedChoose / MalleableChoose leaves so far (at most two: Best(tree) is brute force)
     pool = []  # finished shareable sub-expressions
 
     def starts():
-        return [s for s in range(0, H - 1) if s % align == 0]
+        # callers never hand the library options in the past (directed families cover them)
+        return [s for s in range(now, H - 1) if s % align == 0]
 
     def ps():
         allp = list(range(1, nparts + 1))
@@ -316,14 +331,16 @@ def random_tree(rng, k, max_leaves=4, max_depth=3, kinds=("Choose", "WindowedCho
 
     def leafish(allow_const=True):
         r = rng.random()
-        if r < 0.12 and "WindowedChoose" in kinds:
+        if r < 0.12 and "WindowedChoose" in kinds and wide[0] < 2:
             budget[0] -= 1
+            wide[0] += 1
             s = rng.choice(starts())
             e = rng.choice([x for x in starts() if x >= s])
             return b.wchoose(s, e, rng.randint(1, 2), num=rng.choice([1, 1, 2]), util=rng.randint(1, 3), ps=ps())
-        if r < 0.20 and "MalleableChoose" in kinds and align == 1:
+        if r < 0.20 and "MalleableChoose" in kinds and align == 1 and wide[0] < 2:
             budget[0] -= 1
-            s = rng.randint(now, 2)
+            wide[0] += 1
+            s = rng.randint(now, max(now, 2))
             e = rng.randint(s + 1, min(s + 3, H))
             return b.mchoose(s, e, rng.randint(1, 3), util=rng.randint(1, 3), ps=ps())
         if r < 0.26 and allow_const and "Allocation" in kinds:
@@ -446,6 +463,18 @@ def bounded(bound="B3"):
 # ---------------------------------------------------------------------------
 
 
+def alloc_consistent(tree):
+    """Input well-formedness: the running tasks (Allocations) alone fit the partitions."""
+    use = {}
+    for n in tree["nodes"]:
+        if n["type"] == "Allocation":
+            for p, q in n["alloc"]:
+                for t in range(n["start"], n["start"] + n["duration"]):
+                    use[(p, t)] = use.get((p, t), 0) + q
+    cap = {p["id"]: p["quantity"] for p in tree["partitions"]}
+    return all(v <= cap[p] for (p, _), v in use.items())
+
+
 def corpus(tier, rng, cfg):
     trees = systematic()
     seen = {canonical(t) for t in trees}
@@ -457,7 +486,7 @@ def corpus(tier, rng, cfg):
         attempts += 1
         t = random_tree(rng, k, max_leaves=max_leaves, max_depth=3 if tier == "quick" else 4)
         c = canonical(t)
-        if c in seen or not leaves(t) or len(leaves(t)) > max_leaves:
+        if c in seen or not leaves(t) or len(leaves(t)) > max_leaves or not alloc_consistent(t):
             continue
         seen.add(c)
         trees.append(t)
